@@ -30,7 +30,7 @@ func init() {
 	run.Register(&run.Property{
 		ID:    "C10",
 		Title: "Geometries are immutable values: operations are pure, deterministic, race-free",
-		Rule: "cases = (operation, operand tuple) over an operation table of the public read API (codecs, validation, predicates, set operations, hull, distance, simplification, transforms, dumps, R-tree searches) and a pool of shared valid operands from C01's domain (D-small lattice, where map-ordered overlay structures are largest): each case snapshots the operands, runs the call 24-64 times in one process and records a result digest; a second set of worker processes (different GOMAXPROCS and sharding) recomputes every digest; a -race build runs 2/4/8/16 goroutines over the same shared operands without synchronisation and compares every digest with the sequential table; race-detector reports are counted from its log. " +
+		Rule: "[added in rounds 9-11: junction: lines starting at / ending at / passing through one hub against a probe at the hub, every map-ordered binary operation repeated 41 times] cases = (operation, operand tuple) over an operation table of the public read API (codecs, validation, predicates, set operations, hull, distance, simplification, transforms, dumps, R-tree searches) and a pool of shared valid operands from C01's domain (D-small lattice, where map-ordered overlay structures are largest): each case snapshots the operands, runs the call 24-64 times in one process and records a result digest; a second set of worker processes (different GOMAXPROCS and sharding) recomputes every digest; a -race build runs 2/4/8/16 goroutines over the same shared operands without synchronisation and compares every digest with the sequential table; race-detector reports are counted from its log. " +
 			"non-trivial = a call whose operands are non-empty; distinct by (operation, operand WKBs)",
 		Assumptions: []string{"digests are of values the API returns (WKB / matrix / float bits / error text / callback id sequences)", "BulkLoad permuting its argument slice is documented constructor behaviour and outside the statement",
 			"workload goroutines share no monitor state between the start barrier and Wait (no mutex/atomic that would add happens-before edges)"},
